@@ -618,6 +618,14 @@ impl Context {
 
     /// Set the context's target.
     pub fn set_target(&mut self, target: TargetAddress) -> &mut Self {
+        // An IPv4 destination written as an IPv4-mapped IPv6 address (`::ffff:127.0.0.1`) is connected to over
+        // IPv4: that is what the rules have to see. Left as it came, `cidr_match(request.target.host,
+        // "127.0.0.0/8")` did not match it and a deny rule for an IPv4 range was side-stepped by spelling. The
+        // listeners do the same for the client's address.
+        let target = match target {
+            TargetAddress::SocketAddr(a) => TargetAddress::SocketAddr(crate::common::try_map_v4_addr(a)),
+            other => other,
+        };
         Arc::make_mut(&mut self.props).target = target;
         self
     }
